@@ -878,3 +878,131 @@ pub proof fn lemma_post_step<K, N, E>(r0: Seq<Edge<K, N, E>>, r2: Seq<Edge<K, N,
         }
     }
 }
+
+// ---- postorder, clause (e) of C10: for every accepted edge x -> y between returned nodes, y is finished
+// (recorded) before x unless x is reachable from y ----
+pub open spec fn fin_before<K, N, E>(r: Seq<Edge<K, N, E>>, upto: int, y: Node<K, N, E>) -> bool {
+    exists|j: int| 0 <= j < upto && j < r.len() && (#[trigger] r[j]).1 == y
+}
+// x is recorded at position px (or, for the node whose edge has not been recorded yet, px = r.len())
+pub open spec fn fin_ok<K, N, E>(x: Node<K, N, E>, px: int, r: Seq<Edge<K, N, E>>, acc: spec_fn(Edge<K, N, E>) -> bool, adj: spec_fn(Node<K, N, E>) -> Seq<Edge<K, N, E>>) -> bool {
+    forall|i: int| 0 <= i < adj(x).len() && acc(#[trigger] adj(x)[i]) ==> fin_before(r, px, adj(x)[i].1) || reach0(adj(x)[i].1, x.k(), acc, adj)
+}
+pub open spec fn fin_upto<K, N, E>(x: Node<K, N, E>, m: int, px: int, r: Seq<Edge<K, N, E>>, acc: spec_fn(Edge<K, N, E>) -> bool, adj: spec_fn(Node<K, N, E>) -> Seq<Edge<K, N, E>>) -> bool {
+    forall|i: int| 0 <= i < m && i < adj(x).len() && acc(#[trigger] adj(x)[i]) ==> fin_before(r, px, adj(x)[i].1) || reach0(adj(x)[i].1, x.k(), acc, adj)
+}
+// every node recorded from index `from` on satisfies the condition at its own position
+pub open spec fn fin_all<K, N, E>(r: Seq<Edge<K, N, E>>, from: int, acc: spec_fn(Edge<K, N, E>) -> bool, adj: spec_fn(Node<K, N, E>) -> Seq<Edge<K, N, E>>) -> bool {
+    forall|i: int| from <= i < r.len() ==> fin_ok((#[trigger] r[i]).1, i, r, acc, adj)
+}
+// every visited node that is not yet recorded (the node being expanded and its ancestors) reaches `top`
+pub open spec fn pend_reach<K, N, E>(vis: Set<K>, r: Seq<Edge<K, N, E>>, top: Node<K, N, E>, acc: spec_fn(Edge<K, N, E>) -> bool, adj: spec_fn(Node<K, N, E>) -> Seq<Edge<K, N, E>>) -> bool {
+    forall|n: Node<K, N, E>| #[trigger] universe::<K, N, E>().contains(n) && vis.contains(n.k()) && !fin_before(r, r.len() as int, n) ==> reach0(n, top.k(), acc, adj)
+}
+// the statement of C10 (e) for a complete postorder edge list
+pub open spec fn postorder_ok<K, N, E>(r: Seq<Edge<K, N, E>>, root: Node<K, N, E>, acc: spec_fn(Edge<K, N, E>) -> bool, adj: spec_fn(Node<K, N, E>) -> Seq<Edge<K, N, E>>) -> bool {
+    fin_all(r, 0, acc, adj) && fin_ok(root, r.len() as int, r, acc, adj)
+}
+
+pub proof fn lemma_fin_before_mono<K, N, E>(r: Seq<Edge<K, N, E>>, r2: Seq<Edge<K, N, E>>, p: int, y: Node<K, N, E>)
+    requires r.len() <= r2.len(), r2.take(r.len() as int) == r, fin_before(r, p, y)
+    ensures fin_before(r2, p, y)
+{
+    let j = choose|j: int| 0 <= j < p && j < r.len() && (#[trigger] r[j]).1 == y;
+    assert(r2.take(r.len() as int)[j] == r2[j]);
+}
+
+pub proof fn lemma_fin_ok_mono<K, N, E>(x: Node<K, N, E>, px: int, r: Seq<Edge<K, N, E>>, r2: Seq<Edge<K, N, E>>, acc: spec_fn(Edge<K, N, E>) -> bool, adj: spec_fn(Node<K, N, E>) -> Seq<Edge<K, N, E>>)
+    requires r.len() <= r2.len(), r2.take(r.len() as int) == r, fin_ok(x, px, r, acc, adj)
+    ensures fin_ok(x, px, r2, acc, adj)
+{
+    assert forall|i: int| 0 <= i < adj(x).len() && acc(#[trigger] adj(x)[i]) implies fin_before(r2, px, adj(x)[i].1) || reach0(adj(x)[i].1, x.k(), acc, adj) by {
+        if fin_before(r, px, adj(x)[i].1) { lemma_fin_before_mono(r, r2, px, adj(x)[i].1); }
+    }
+}
+
+// the postorder step: after the recursive call on e.1 returned (r0 -> r2) the edge e is recorded
+pub proof fn lemma_fin_step<K, N, E>(r0: Seq<Edge<K, N, E>>, r2: Seq<Edge<K, N, E>>, e: Edge<K, N, E>, a: int, acc: spec_fn(Edge<K, N, E>) -> bool, adj: spec_fn(Node<K, N, E>) -> Seq<Edge<K, N, E>>)
+    requires 0 <= a <= r0.len() <= r2.len(), r2.take(r0.len() as int) == r0,
+        fin_all(r0, a, acc, adj), fin_all(r2, r0.len() as int, acc, adj), fin_ok(e.1, r2.len() as int, r2, acc, adj),
+    ensures fin_all(r2.push(e), a, acc, adj), fin_before(r2.push(e), r2.len() as int + 1, e.1)
+{
+    let r3 = r2.push(e);
+    assert(r3.take(r2.len() as int) =~= r2);
+    assert(r3.take(r0.len() as int) =~= r0);
+    assert forall|i: int| a <= i < r3.len() implies fin_ok((#[trigger] r3[i]).1, i, r3, acc, adj) by {
+        if i < r0.len() {
+            assert(r3.take(r0.len() as int)[i] == r3[i]);
+            lemma_fin_ok_mono(r0[i].1, i, r0, r3, acc, adj);
+        } else if i < r2.len() {
+            assert(r3[i] == r2[i]);
+            lemma_fin_ok_mono(r2[i].1, i, r2, r3, acc, adj);
+        } else {
+            lemma_fin_ok_mono(e.1, r2.len() as int, r2, r3, acc, adj);
+        }
+    }
+    assert(r3[r2.len() as int].1 == e.1);
+}
+
+// what the recursive call on e.1 may assume: every visited, unrecorded node reaches e.1
+pub proof fn lemma_pend_reach_call<K, N, E>(v0: Set<K>, r0: Seq<Edge<K, N, E>>, node: Node<K, N, E>, e: Edge<K, N, E>, acc: spec_fn(Edge<K, N, E>) -> bool, adj: spec_fn(Node<K, N, E>) -> Seq<Edge<K, N, E>>)
+    requires graph_ok(adj), pend_reach(v0, r0, node, acc, adj), e.0 == node, universe::<K, N, E>().contains(node), in_adj(e, adj), acc(e), universe::<K, N, E>().contains(e.1),
+    ensures pend_reach(v0.insert(e.1.k()), r0, e.1, acc, adj)
+{
+    assert forall|n: Node<K, N, E>| #[trigger] universe::<K, N, E>().contains(n) && v0.insert(e.1.k()).contains(n.k()) && !fin_before(r0, r0.len() as int, n) implies reach0(n, e.1.k(), acc, adj) by {
+        if n.k() != e.1.k() {
+            assert(reach0(n, node.k(), acc, adj));
+            lemma_reach_step(n, acc, adj, e);
+        }
+    }
+}
+
+// after the call returned and e was recorded, the set of visited-unrecorded nodes is what it was before
+pub proof fn lemma_pend_reach_back<K, N, E>(v0: Set<K>, r0: Seq<Edge<K, N, E>>, v2: Set<K>, r2: Seq<Edge<K, N, E>>, node: Node<K, N, E>, e: Edge<K, N, E>, acc: spec_fn(Edge<K, N, E>) -> bool, adj: spec_fn(Node<K, N, E>) -> Seq<Edge<K, N, E>>)
+    requires keys_distinct::<K, N, E>(), pend_reach(v0, r0, node, acc, adj), ext(v0.insert(e.1.k()), r0, v2, r2), universe::<K, N, E>().contains(e.1),
+        forall|i: int| r0.len() <= i < r2.len() ==> universe::<K, N, E>().contains((#[trigger] r2[i]).1),
+    ensures pend_reach(v2, r2.push(e), node, acc, adj)
+{
+    reveal(ext);
+    let r3 = r2.push(e);
+    assert forall|n: Node<K, N, E>| #[trigger] universe::<K, N, E>().contains(n) && v2.contains(n.k()) && !fin_before(r3, r3.len() as int, n) implies reach0(n, node.k(), acc, adj) by {
+        if v0.contains(n.k()) {
+            if fin_before(r0, r0.len() as int, n) {
+                let j = choose|j: int| 0 <= j < r0.len() && j < r0.len() && (#[trigger] r0[j]).1 == n;
+                assert(r2.take(r0.len() as int)[j] == r2[j]);
+                assert(r3[j] == r2[j]);
+            }
+        } else if n.k() == e.1.k() {
+            lemma_keys(n, e.1);
+            assert(r3[r2.len() as int].1 == n);
+        } else {
+            let i = choose|i: int| r0.len() <= i < r2.len() && (#[trigger] r2[i]).1.k() == n.k();
+            lemma_keys(n, r2[i].1);
+            assert(r3[i] == r2[i]);
+        }
+    }
+}
+
+pub proof fn lemma_fin_upto_mono<K, N, E>(x: Node<K, N, E>, m: int, p: int, r: Seq<Edge<K, N, E>>, p2: int, r2: Seq<Edge<K, N, E>>, acc: spec_fn(Edge<K, N, E>) -> bool, adj: spec_fn(Node<K, N, E>) -> Seq<Edge<K, N, E>>)
+    requires r.len() <= r2.len(), r2.take(r.len() as int) == r, p <= p2, fin_upto(x, m, p, r, acc, adj)
+    ensures fin_upto(x, m, p2, r2, acc, adj)
+{
+    assert forall|i: int| 0 <= i < m && i < adj(x).len() && acc(#[trigger] adj(x)[i]) implies fin_before(r2, p2, adj(x)[i].1) || reach0(adj(x)[i].1, x.k(), acc, adj) by {
+        if fin_before(r, p, adj(x)[i].1) {
+            lemma_fin_before_mono(r, r2, p, adj(x)[i].1);
+            let j = choose|j: int| 0 <= j < p && j < r2.len() && (#[trigger] r2[j]).1 == adj(x)[i].1;
+            assert(0 <= j < p2);
+        }
+    }
+}
+
+pub proof fn lemma_pedges_targets_uni<K, N, E>(r: Seq<Edge<K, N, E>>, from: int, top: Node<K, N, E>, acc: spec_fn(Edge<K, N, E>) -> bool, adj: spec_fn(Node<K, N, E>) -> Seq<Edge<K, N, E>>)
+    requires graph_ok(adj), pedges(r, from, top, acc, adj), 0 <= from
+    ensures forall|i: int| from <= i < r.len() ==> universe::<K, N, E>().contains((#[trigger] r[i]).1)
+{
+    assert forall|i: int| from <= i < r.len() implies universe::<K, N, E>().contains((#[trigger] r[i]).1) by {
+        let e = r[i];
+        let j = choose|j: int| 0 <= j < adj(e.0).len() && (#[trigger] adj(e.0)[j]) == e;
+        assert(universe::<K, N, E>().contains(adj(e.0)[j].1));
+    }
+}
